@@ -615,6 +615,16 @@ func (m *csMachine) genAddUni(t *rapid.T, live []*poolInfo) csOp {
 // genSide: the coin of a one-sided add/remove: either reserve coin of the pool, rarely a coin the pool does not
 // trade (a third coin that donations may have put on the escrow, another pool's coin, the pool's own share token).
 func (m *csMachine) genSide(t *rapid.T, p *poolInfo) string {
+	// a coin the pool does not trade but that somebody parked on its escrow account is the likeliest wrong side
+	var parked []string
+	for _, d := range append([]string{"point", p.lpt}, poolDenoms...) {
+		if d != p.denom && cell(m.sheet, p.addr, d).Sign() > 0 {
+			parked = append(parked, d)
+		}
+	}
+	if len(parked) > 0 && uni(t, "parkedside", 5+1) == 0 {
+		return rapid.SampledFrom(parked).Draw(t, "parked")
+	}
 	if uni(t, "foreignside", 24+1) == 0 {
 		return rapid.SampledFrom([]string{"point", "btc", "eth", "usdt", "BTC", p.lpt}).Draw(t, "foreign")
 	}
@@ -782,7 +792,7 @@ func (m *csMachine) genSend(t *rapid.T) csOp {
 		if len(m.order) > 0 && uni(t, "future", 9+1) > 0 {
 			d := rapid.SampledFrom(m.order).Draw(t, "pool")
 			op.To = "pool:" + d
-			op.Denom = rapid.SampledFrom([]string{std, d, std, d, "point", "lpt:" + d}).Draw(t, "denom")
+			op.Denom = rapid.SampledFrom([]string{std, d, std, d, "point", "lpt:" + d, rapid.SampledFrom(poolDenoms).Draw(t, "othercoin")}).Draw(t, "denom")
 			ref := cell(m.sheet, m.pools[d].addr, m.resolveDenom(op.Denom))
 			if ref.Sign() == 0 {
 				ref = big.NewInt(1000)
@@ -1515,6 +1525,10 @@ func (m *csMachine) oracleC02(op csOp, res chain.Result, before chain.Sheet, del
 			m.cnt["pool-created-fee-other-denom"]++
 		}
 	case "adduni":
+		if op.Denom != std && op.Denom != p.denom {
+			// shares minted against a coin that is neither reserve are not minted against a deposit
+			return m.fail("one-sided-add-of-a-coin-the-pool-does-not-trade", "one-sided add %+v accepted: pool %s trades %s and %s", op, p.denom, std, p.denom)
+		}
 		e.Move(sender, p.addr, op.Denom, bi(op.A))
 		if !chain.SameDelta(delta, e.Delta()) {
 			return m.fail("adduni-settlement", "one-sided add %+v moved %s, allowed %s", op, delta, e.Delta())
@@ -1549,6 +1563,9 @@ func (m *csMachine) oracleC02(op csOp, res chain.Result, before chain.Sheet, del
 			m.cnt["liquidity-bound-met-exactly"]++
 		}
 	case "removeuni":
+		if op.Denom != std && op.Denom != p.denom {
+			return m.fail("one-sided-remove-of-a-coin-the-pool-does-not-trade", "one-sided remove %+v accepted: pool %s trades %s and %s", op, p.denom, std, p.denom)
+		}
 		w := bi(op.A)
 		out := neg(dcell(delta, p.addr, op.Denom))
 		e.Move(p.addr, sender, op.Denom, out)
@@ -1588,6 +1605,11 @@ func (m *csMachine) probeRejection(op csOp, orig chain.Result) error {
 		if _, blocked := m.resolve(op.To, op.Who); blocked {
 			m.cnt["blocked-recipient-rejected"]++
 			return nil
+		}
+	}
+	if op.Kind == "adduni" || op.Kind == "removeuni" {
+		if p := m.pools[op.Pool]; p != nil && op.Denom != std && op.Denom != p.denom && cell(m.sheet, p.addr, op.Denom).Sign() > 0 {
+			m.cnt["one-sided-op-on-a-parked-foreign-coin-rejected"]++
 		}
 	}
 	// first the deadline alone: a deadline that has not passed must not be the reason
